@@ -3,6 +3,7 @@ import QP.Proofs.PTExamples
 import QP.Proofs.PTTop2
 import QP.Proofs.PTTop3
 import QP.Proofs.PTSingle
+import QP.Proofs.PTTopA
 import QP.Proofs.PTTable
 /-!
 # C01 — an instantiated program plays exactly the voltages the template describes
@@ -103,6 +104,42 @@ theorem compile_correct_single_partial {pt : PT} (hs : Stage3 pt) (params : List
     ∀ t, 0 ≤ t → t < P.dur → progS.sample c t = PL.at pl t := by
   obtain ⟨h1, _, h3, h4⟩ := createProgram_single hs params mm cm S prog0 progS P hpf h0 hpos hS hden hclean c pl hc ht0 htS
   exact ⟨h1, h3, h4⟩
+
+/-- **time reversal, with the judge's junction tolerance**: for constant and function atoms composed by sequencing,
+repetition, indexed iteration, mapping **and `TimeReversalPT`** in any nesting (`Stage1R`), every sample of the
+compiled program in `[0, duration)` is a value — never NaN — that the judge admits for the denoted pulse
+(`PL.adm`, see `judge_is_at` / `judge_contains_at`: the right-open value of the piecewise linear function, and at a
+junction inside a time reversed part also the left limit).  The proof carries the mirror image along (left-closed
+playback `Loop.sampleL` against left-closed evaluation `PL.atL`); `Loop.reverse_inplace` exchanges the two
+(`rev_sample`, `rev_sampleL` for every program tree with positive pieces). -/
+theorem compile_correct_reversal_partial {pt : PT} (hs : Stage1R pt) (params : List (String × Rat))
+    (mm : Option (List (MName × Option MName))) (cm : List (Chan × Option Chan)) (prog : Loop) (P : Pulse)
+    (hprog : createProgram pt params mm cm [] = .ok (some prog))
+    (hden : denoteTop pt params mm cm = .ok P) (hpos : prog.allPos) :
+    prog.duration = P.dur ∧
+    ∀ c pl, P.chans.lookup c = some pl → ∀ t, 0 ≤ t → t < P.dur →
+      ∃ v, prog.sample c t = some v ∧ v ∈ PL.adm none pl t :=
+  createProgram_relA hs params mm cm prog P hprog hden hpos
+
+/-- `Loop.reverse_inplace` plays the original backwards: right-open playback of the reversed program at `t` is
+left-closed playback of the original at `duration - t` — for every program tree whose pieces have positive
+duration -/
+theorem reverse_plays_backwards (l : Loop) (h : l.allPos) (c : Chan) (t : Rat) (h0 : 0 ≤ t) (h1 : t < l.duration) :
+    l.reverseInplace.sample c t = l.sampleL c (l.duration - t) := rev_sample c l h t h0 h1
+
+/-- the reversed piecewise linear function, evaluated right-open at `t`, is the original evaluated left-closed at
+`duration - t`; and the original's right-open value there is admitted by the judge as well -/
+theorem reversed_function (p : PL) (hp : p.pos) (t : Rat) (h0 : 0 ≤ t) (h1 : t < PL.dur p) :
+    PL.at p.reversed t = PL.atL p (PL.dur p - t) ∧
+    (0 < t → ∃ v, PL.at p (PL.dur p - t) = some v ∧ v ∈ PL.adm none p.reversed t) := by
+  refine ⟨by rw [PL.at_reversed]; exact PL.at_revAmb p hp t h0 h1, ?_⟩
+  intro ht
+  obtain ⟨v, hv, hmem⟩ := PL.adm_revAmb p hp none (PL.dur p - t) (by linarith) (by linarith)
+  refine ⟨v, hv, ?_⟩
+  rw [PL.adm_none_reversed]
+  have e : PL.dur p - (PL.dur p - t) = t := by ring
+  rw [e] at hmem
+  exact hmem
 
 /-- **the builder is correct whatever the atoms are**: sequences, repetitions, iterations and mappings of
 atomic templates that satisfy the relation `Rel` (leaf and windows = denoted pulse) satisfy it again — this is
